@@ -10,7 +10,9 @@ def run(ded, repo, tier):
     driver.run_parallel(ded, [dict(module='contracts.unique_c', repo=repo, q='unique_iter', variant=v, tier=tier,
                                    clause_of={'*': 'unique_first_occurrences'}) for v in ('identity', 'callable')] +
                         [dict(module='contracts.unique_c', repo=repo, q='bucketize', variant=v, tier=tier,
-                              clause_of={'*': 'bucketize_partition'}) for v in ('plain,nofilter', 'transform,filter')])
+                              clause_of={'*': 'bucketize_partition'}) for v in ('plain,nofilter', 'transform,filter')] +
+                        [dict(module='contracts.unique_c', repo=repo, q='partition', variant='callable', tier=tier,
+                              clause_of={'*': 'bucketize_partition'})])
     ded.assume('chunk_ranges parameters are ints (int(value) is the identity); valid parameters = sizes >= 0, '
                'chunk_size >= 1, 0 <= overlap_size < chunk_size')
     ded.assume('integers are mathematical (exact for Python ints)')
@@ -21,5 +23,5 @@ def run(ded, repo, tier):
                'raise (key is neither a str nor a list: those forms are bounded only); the proved postcondition: every kept item sits '
                'in the bucket of its key at a ghost slot, every bucket slot holds exactly one kept item of that key, slots are in '
                'input order, no bucket is empty')
-    ded.trust('not under contract (bounded only): chunked/chunked_iter, windowed/pairwise, split/strip helpers, redundant, partition '
-              '(a two-line wrapper of bucketize)')
+    ded.trust('not under contract (bounded only): chunked/chunked_iter, windowed/pairwise, split/strip helpers, redundant; partition is proved on top of the bucketize contract for a callable key (True/False as dict keys are '
+              'the integers 1/0, as in Python)')
